@@ -224,14 +224,23 @@ func rewriteGo(f *ast.File, fns []string) bool {
 				return s
 			}
 			changed = true
+			// arguments are evaluated at the go statement, as Go does
+			var pre []ast.Stmt
+			call := &ast.CallExpr{Fun: g.Call.Fun, Ellipsis: g.Call.Ellipsis}
+			for ai, a := range g.Call.Args {
+				tmp := ast.NewIdent(fmt.Sprintf("vhArg%d", ai))
+				pre = append(pre, &ast.AssignStmt{Lhs: []ast.Expr{tmp}, Tok: token.DEFINE, Rhs: []ast.Expr{a}})
+				call.Args = append(call.Args, ast.NewIdent(tmp.Name))
+			}
 			lit := &ast.FuncLit{
 				Type: &ast.FuncType{Params: &ast.FieldList{}},
-				Body: &ast.BlockStmt{List: []ast.Stmt{&ast.ExprStmt{X: g.Call}}},
+				Body: &ast.BlockStmt{List: []ast.Stmt{&ast.ExprStmt{X: call}}},
 			}
-			return &ast.ExprStmt{X: &ast.CallExpr{
+			goCall := &ast.ExprStmt{X: &ast.CallExpr{
 				Fun:  &ast.SelectorExpr{X: ast.NewIdent("vhook"), Sel: ast.NewIdent("Go")},
 				Args: []ast.Expr{lit},
 			}}
+			return &ast.BlockStmt{List: append(pre, goCall)}
 		})
 	}
 	return changed
